@@ -154,7 +154,8 @@ func (b *UB) At(name string) *UB {
 	if len(b.pending) > 0 {
 		panic("universe: At with pending txs")
 	}
-	if err := b.W.State.Walk(b.U.ID(name), false); err != nil {
+	// the builder may cross its own irreversible height: it prunes
+	if err := b.W.State.Walk(b.U.ID(name), b.U.Cfg.Window > 0); err != nil {
 		panic(fmt.Sprintf("universe %s: walk to %s: %v", b.U.Name, name, err))
 	}
 	vhook.Drain()
